@@ -9,6 +9,10 @@ import numpoly
 from . import clean
 from ..baseclass import ndpoly
 
+CFUNCTION_DTYPES = tuple(
+    numpy.dtype(dtype) for dtype in (bool, "uint32", "int64", "float64", "complex128")
+)
+
 
 def polynomial_from_attributes(
     exponents: numpy.typing.ArrayLike,
@@ -92,9 +96,16 @@ def polynomial_from_attributes(
     )
 
     if coefficients:
-        numpoly.cfrom_attributes(coefficients, poly.values.ravel())
-
-    # for key, values in zip(poly.keys, coefficients):
-    #    poly.values[key] = values
+        # The compiled setter copies raw bytes from writable buffers of a few
+        # dtypes only; everything else is cast and assigned by numpy.
+        if poly.dtype in CFUNCTION_DTYPES:
+            coefficients = [
+                numpy.require(coefficient, dtype=poly.dtype, requirements="W")
+                for coefficient in coefficients
+            ]
+            numpoly.cfrom_attributes(coefficients, poly.values.ravel())
+        else:
+            for key, values in zip(poly.keys, coefficients):
+                poly.values[key] = values
 
     return poly
